@@ -224,16 +224,83 @@ func runC16(c c16Case) Result {
 		}
 		return ok(cls, true)
 	case "malformed", "badindex", "wrongtype":
-		_, _, err, pan := decodeDoc(m.Mode, c.Doc)
+		ins, del, err, pan := decodeDoc(m.Mode, c.Doc)
 		if pan != nil {
 			return bad(class, "UnmarshalJSON:panic", "decoder panicked on %s=%q: %v", c.Where, c.What, pan)
 		}
 		if err == nil {
+			// The statement pins STRINGS that are not numbers and indices outside 32 bits. Two acceptances it leaves open are
+			// tolerated, provided the value is the one written: a bare non-negative JSON integer where a numeric string is
+			// expected, and a string denoting an in-range index.
+			if c.Kind == "wrongtype" && isBareNatural(c.What) {
+				want := m.clone()
+				v, _ := new(big.Int).SetString(c.What, 10)
+				want.setNumberAt(c.Where, v)
+				var d string
+				if m.Mode == "insertion" {
+					d = want.diffInsertion(ins)
+				} else {
+					d = want.diffDeletion(del)
+				}
+				if d != "" {
+					return bad(class, "UnmarshalJSON:value:"+stripIdx(d), "bare integer %s at %s was accepted but decoded %s differs from it", c.What, c.Where, d)
+				}
+				return ok(class+"/accepted-bare-integer", true)
+			}
+			if c.Kind == "badindex" && (c.What == `"7"` || c.What == `"0x1"`) {
+				return ok(class+"/accepted-index-as-string", true)
+			}
 			return bad(class, "UnmarshalJSON:accepted-"+c.Kind+":"+stripIdx(c.Where), "document with %s = %s decoded without error", c.Where, c.What)
 		}
 		return ok(class, true)
 	}
 	return bad(class, "harness:unknown-kind", "unknown kind %q", c.Kind)
+}
+
+func isBareNatural(s string) bool {
+	if s == "" {
+		return false
+	}
+	for _, r := range s {
+		if r < '0' || r > '9' {
+			return false
+		}
+	}
+	return true
+}
+
+func (m *mParams) clone() *mParams {
+	c := *m
+	c.InputHash, c.PreRoot, c.PostRoot = ref.Clone(m.InputHash), ref.Clone(m.PreRoot), ref.Clone(m.PostRoot)
+	c.IdComms = ref.CloneSlice(m.IdComms)
+	c.DeletionIndices = append([]uint32(nil), m.DeletionIndices...)
+	c.MerkleProofs = make([][]*big.Int, len(m.MerkleProofs))
+	for i := range m.MerkleProofs {
+		c.MerkleProofs[i] = ref.CloneSlice(m.MerkleProofs[i])
+	}
+	return &c
+}
+
+// setNumberAt sets the numeric string position named by a numericPositions path.
+func (m *mParams) setNumberAt(path string, v *big.Int) {
+	parts := strings.Split(path, "/")
+	idx := func(k int) int {
+		var i int
+		fmt.Sscan(parts[k], &i)
+		return i
+	}
+	switch parts[0] {
+	case "inputHash":
+		m.InputHash = v
+	case "preRoot":
+		m.PreRoot = v
+	case "postRoot":
+		m.PostRoot = v
+	case "identityCommitments":
+		m.IdComms[idx(1)] = v
+	case "merkleProofs":
+		m.MerkleProofs[idx(1)][idx(2)] = v
+	}
 }
 
 func stripIdx(s string) string {
